@@ -652,8 +652,10 @@ class SymSet:
                 seen.append(c)
                 yield c
         g = StrSym(z3.String(ctx.fresh_name(self.label + "_other")))
-        cond = z3.And(self.mem(g.t), *[z3.Not(name_eq_term(g, c)) for c in self.universe()])
+        uni = list(self.universe())
+        cond = z3.And(self.mem(g.t), *[z3.Not(name_eq_term(g, c)) for c in uni])
         if ctx.branch(cond):
+            note_name(ctx, g, lambda c, _u=uni: c in [x for x in _u if isinstance(x, str)], (), uni)
             yield g
 
     def __repr__(self):
